@@ -735,4 +735,622 @@ theorem runFrom_spec (hpc : ∀ w, pc w = popcount w) (hsiw : ∀ w k, siw w k =
     exact ⟨by rw [ha, hb], hd⟩
 
 end Machine3
+/-! ### setting a bit -/
+
+theorem wordBits_or_bit (x : Word) (j : Nat) (_hj : j < 64) :
+    wordBits (x ||| (1#64 <<< j)) = (wordBits x).set j true := by
+  apply List.ext_getElem
+  · simp [wordBits]
+  · intro i h1 h2
+    have hi64 : i < 64 := by simpa [wordBits] using h1
+    rw [wordBits_getElem, List.getElem_set, BitVec.getLsbD_or, BitVec.getLsbD_shiftLeft]
+    by_cases hij : j = i
+    · subst hij; simp [hi64]
+    · rw [if_neg hij, wordBits_getElem]
+      have : BitVec.getLsbD (1#64) (i - j) = decide (i - j = 0) := by
+        rw [BitVec.getLsbD_one]; simp
+      rw [this]
+      by_cases hlt : i < j
+      · simp [hlt]
+      · have : ¬ (i - j = 0) := by omega
+        simp [this]
+
+theorem setBit_length (ws : List Word) (p : Nat) : (setBit ws p).length = ws.length := by
+  simp [setBit]
+
+theorem allBits_setBit (ws : List Word) (p : Nat) (h : p / 64 < ws.length) :
+    allBits (setBit ws p) = (allBits ws).set p true := by
+  unfold setBit
+  have hsplit := take_getD_drop ws (p / 64) h
+  have hlen : (allBits (ws.take (p / 64))).length = 64 * (p / 64) := by
+    rw [allBits_length, List.length_take]; congr 1; omega
+  rw [List.set_eq_take_append_cons_drop, if_pos h]
+  generalize ws.take (p / 64) = A at *
+  generalize ws.getD (p / 64) 0 = w at *
+  generalize ws.drop (p / 64 + 1) = C at *
+  rw [hsplit, allBits_append, allBits_cons, allBits_append, allBits_cons,
+    wordBits_or_bit _ _ (Nat.mod_lt _ (by omega))]
+  rw [List.set_append, if_neg (by omega), hlen, List.set_append, wordBits_length]
+  have e1 : p - 64 * (p / 64) = p % 64 := by omega
+  rw [e1, if_pos (Nat.mod_lt _ (by omega))]
+
+theorem count_drop_zero_of_le (L : List Bool) {a b : Nat} (hab : a ≤ b)
+    (h : (L.drop a).count true = 0) : (L.drop b).count true = 0 := by
+  have : L.drop b = (L.drop a).drop (b - a) := by rw [List.drop_drop]; congr 1; omega
+  rw [this]
+  have := ((L.drop a).drop_sublist (b - a)).count_le true
+  omega
+
+/-- Setting the bit at `p` when no bit at or beyond `p` is set: one more set bit, it is the last
+one, earlier selects and ranks are unchanged. -/
+theorem set_true_beyond (L : List Bool) (p : Nat) (hp : p < L.length) (hz : (L.drop p).count true = 0) :
+    (L.set p true).count true = L.count true + 1 ∧
+    (∀ k, k < L.count true → selectB true (L.set p true) k = selectB true L k) ∧
+    selectB true (L.set p true) (L.count true) = some p ∧
+    ((L.set p true).drop (p + 1)).count true = 0 ∧
+    (∀ m, m ≤ p → rankB true (L.set p true) m = rankB true L m) ∧
+    (∀ m, p < m → rankB true (L.set p true) m = L.count true + 1) := by
+  have hset : L.set p true = L.take p ++ true :: L.drop (p + 1) := by
+    rw [List.set_eq_take_append_cons_drop, if_pos hp]
+  have hL : L = L.take p ++ L[p] :: L.drop (p + 1) := by simp
+  have hdrop : L.drop p = L[p] :: L.drop (p + 1) := List.drop_eq_getElem_cons hp
+  rw [hdrop, List.count_cons] at hz
+  have hz1 : (L.drop (p + 1)).count true = 0 := by omega
+  have hLp : L[p] = false := by
+    cases h : L[p] with
+    | false => rfl
+    | true => rw [h] at hz; simp at hz
+  have hcount : L.count true = (L.take p).count true := by
+    conv => lhs; rw [hL]
+    rw [List.count_append, List.count_cons, hLp]; simp; omega
+  have hlenA : (L.take p).length = p := by rw [List.length_take]; omega
+  refine ⟨?_, ?_, ?_, ?_, ?_, ?_⟩
+  · rw [hset, List.count_append, List.count_cons, hcount]; simp; omega
+  · intro k hk
+    rw [hset, selectB_append, if_pos (by omega)]
+    conv => rhs; rw [hL, selectB_append, if_pos (by omega)]
+  · rw [hset, selectB_append, if_neg (by omega), hcount, Nat.sub_self, hlenA]
+    simp [selectB]
+  · rw [hset]
+    have : (L.take p ++ true :: L.drop (p + 1)).drop (p + 1) = L.drop (p + 1) := by
+      rw [List.drop_append, hlenA]
+      have e : p + 1 - p = 1 := by omega
+      rw [List.drop_of_length_le (by omega), e]; simp
+    rw [this]; exact hz1
+  · intro m hm
+    unfold rankB
+    rw [hset]
+    conv => rhs; rw [hL]
+    rw [List.take_append, List.take_append, hlenA]
+    have : m - p = 0 := by omega
+    rw [this]; simp
+  · intro m hm
+    unfold rankB
+    rw [hset, List.take_append, hlenA, List.take_of_length_le (by omega), List.count_append]
+    obtain ⟨d, hd⟩ : ∃ d, m - p = d + 1 := ⟨m - p - 1, by omega⟩
+    rw [hd, List.take_succ_cons, List.count_cons]
+    have := ((L.drop (p + 1)).take_sublist d).count_le true
+    rw [hcount]; simp; omega
+
+/-! ### the build loops -/
+
+/-- Both build loops as one loop over the *effective* positions: `skip` = "a zero entry records
+nothing" (leading containers of `CompactEndPositions::try_build`). -/
+def coreLoop (skip : Bool) : List Nat → Nat → BState → BState
+  | [], _, st => st
+  | p :: ps, i, st =>
+    if skip = true ∧ p = 0 then coreLoop skip ps (i + 1) { st with prev := some 0 }
+    else coreLoop skip ps (i + 1) (stepCore st i p)
+
+theorem openLoop_eq (ps : List Nat) (i : Nat) (st : BState) : openLoop ps i st = coreLoop false ps i st := by
+  induction ps generalizing i st with
+  | nil => rfl
+  | cons p ps ih => simp [openLoop, coreLoop, ih]
+
+/-- First bit position that is certainly still clear in IB. -/
+def hiOf (skip : Bool) (pre : List Nat) : Nat :=
+  match pre.getLast? with
+  | none => 0
+  | some l => if skip = true ∧ l = 0 then 0 else l + 1
+
+structure BInv (skip : Bool) (nW aW : Nat) (pre : List Nat) (st : BState) : Prop where
+  lenIb : st.ib.length = nW
+  lenAdv : st.adv.length = aW
+  prev : st.prev = pre.getLast?
+  ibHi : ((allBits st.ib).drop (hiOf skip pre)).count true = 0
+  advHi : ((allBits st.adv).drop pre.length).count true = 0
+  ones : st.ibOnes = (allBits st.ib).count true
+  cnt : (∀ v ∈ pre, v < 64 * nW) → (allBits st.ib).count true = (allBits st.adv).count true
+  main : ∀ j (hj : j < pre.length),
+    ((skip = true ∧ pre[j] = 0) → rankB true (allBits st.adv) (j + 1) = 0) ∧
+    (¬ (skip = true ∧ pre[j] = 0) → pre[j] < 64 * nW →
+      1 ≤ rankB true (allBits st.adv) (j + 1) ∧
+      selectB true (allBits st.ib) (rankB true (allBits st.adv) (j + 1) - 1) = some pre[j])
+
+theorem getD_false_of_drop_count (L : List Bool) (a p : Nat) (h : (L.drop a).count true = 0) (hap : a ≤ p) :
+    L.getD p false = false := by
+  by_cases hp : p < L.length
+  · have h2 := count_drop_zero_of_le L hap h
+    rw [List.drop_eq_getElem_cons hp, List.count_cons] at h2
+    rw [List.getD_eq_getElem?_getD, List.getElem?_eq_getElem hp, Option.getD_some]
+    cases hb : L[p] with
+    | false => rfl
+    | true => rw [hb] at h2; simp at h2
+  · rw [List.getD_eq_getElem?_getD, List.getElem?_eq_none (by omega)]; rfl
+
+theorem rankB_eq_count_of_drop (L : List Bool) (a : Nat) (h : (L.drop a).count true = 0) :
+    rankB true L a = L.count true := by
+  unfold rankB
+  have := count_take_drop L a
+  omega
+
+theorem selectB_lt_count (L : List Bool) (k p : Nat) (h : selectB true L k = some p) : k < L.count true := by
+  by_cases hk : k < L.count true
+  · exact hk
+  · rw [selectB_none_of_count_le true L k (by omega)] at h; simp at h
+
+theorem getLast?_append_single (pre : List Nat) (p : Nat) : (pre ++ [p]).getLast? = some p := by simp
+
+theorem getElem_append_single_lt (pre : List Nat) (p j : Nat) (hj : j < pre.length)
+    (hj' : j < (pre ++ [p]).length) : (pre ++ [p])[j] = pre[j] := by
+  rw [List.getElem_append_left hj]
+
+theorem getElem_append_single_eq (pre : List Nat) (p : Nat) (hj' : pre.length < (pre ++ [p]).length) :
+    (pre ++ [p])[pre.length] = p := by
+  rw [List.getElem_append_right (by omega)]; simp
+
+/-- One iteration of the (unified) build loop preserves the invariant. -/
+theorem binv_step (skip : Bool) (nW aW : Nat) (pre : List Nat) (st : BState) (p : Nat)
+    (inv : BInv skip nW aW pre st) (hsorted : ∀ v ∈ pre, v ≤ p) (hroom : pre.length < 64 * aW) :
+    BInv skip nW aW (pre ++ [p])
+      (if skip = true ∧ p = 0 then { st with prev := some 0 } else stepCore st pre.length p) := by
+  have hlenIB : (allBits st.ib).length = 64 * nW := by rw [allBits_length, inv.lenIb]
+  have hlenADV : (allBits st.adv).length = 64 * aW := by rw [allBits_length, inv.lenAdv]
+  have hadvbit : (allBits st.adv).getD pre.length false = false :=
+    getD_false_of_drop_count _ _ _ inv.advHi (Nat.le_refl _)
+  have hrank_len : rankB true (allBits st.adv) (pre.length + 1) = rankB true (allBits st.adv) pre.length := by
+    rw [rankB_succ, hadvbit]; simp
+  -- relation between the last processed value and `p`
+  have hlast : ∀ l, pre.getLast? = some l → l ≤ p ∧ pre ≠ [] := by
+    intro l hl
+    refine ⟨hsorted l (List.mem_of_getLast? hl), ?_⟩
+    intro h; rw [h] at hl; simp at hl
+  by_cases hskip : skip = true ∧ p = 0
+  · -- a skipped zero: nothing recorded
+    rw [if_pos hskip]
+    obtain ⟨hs, hp0⟩ := hskip
+    subst hp0
+    have hhi0 : hiOf skip pre = 0 := by
+      unfold hiOf
+      cases hl : pre.getLast? with
+      | none => rfl
+      | some l =>
+        have := (hlast l hl).1
+        have : l = 0 := by omega
+        simp [hs, this]
+    refine
+      { lenIb := inv.lenIb, lenAdv := inv.lenAdv, prev := (getLast?_append_single pre 0).symm
+        ibHi := ?_, advHi := ?_, ones := inv.ones, cnt := ?_, main := ?_ }
+    · have : hiOf skip (pre ++ [0]) = 0 := by simp [hiOf, hs]
+      have h := inv.ibHi
+      rw [hhi0] at h
+      rw [this]; exact h
+    · rw [List.length_append]; exact count_drop_zero_of_le _ (by simp) inv.advHi
+    · intro h; exact inv.cnt (fun v hv => h v (List.mem_append_left _ hv))
+    · intro j hj
+      by_cases hjl : j < pre.length
+      · rw [getElem_append_single_lt pre 0 j hjl hj]; exact inv.main j hjl
+      · have hje : j = pre.length := by simp at hj; omega
+        subst hje
+        rw [getElem_append_single_eq]
+        refine ⟨fun _ => ?_, fun h => absurd ⟨hs, rfl⟩ h⟩
+        rw [hrank_len]
+        by_cases hne : pre.length = 0
+        · rw [hne]; simp [rankB]
+        · obtain ⟨n, hn⟩ : ∃ n, pre.length = n + 1 := ⟨pre.length - 1, by omega⟩
+          have hlt : n < pre.length := by omega
+          have hz : pre[n] = 0 := by
+            have := hsorted pre[n] (List.getElem_mem hlt); omega
+          rw [hn]; exact (inv.main n hlt).1 ⟨hs, hz⟩
+  · rw [if_neg hskip]
+    unfold stepCore
+    by_cases hnew : st.prev ≠ some p
+    · -- a new position
+      rw [if_pos hnew]
+      dsimp only
+      have hhi_le : hiOf skip pre ≤ p := by
+        unfold hiOf
+        cases hl : pre.getLast? with
+        | none => simp
+        | some l =>
+          have h1 := (hlast l hl).1
+          have h2 : l ≠ p := by
+            intro h; apply hnew; rw [inv.prev, hl, h]
+          dsimp only
+          split <;> omega
+      have hbitp : testBit st.ib p = false := by
+        rw [testBit_eq]; exact getD_false_of_drop_count _ _ _ inv.ibHi hhi_le
+      have hA := set_true_beyond (allBits st.adv) pre.length (by omega) inv.advHi
+      have hADV : allBits (setBit st.adv pre.length) = (allBits st.adv).set pre.length true :=
+        allBits_setBit _ _ (by rw [inv.lenAdv]; omega)
+      obtain ⟨hA1, _, _, hA4, hA5, hA6⟩ := hA
+      have hhi' : hiOf skip (pre ++ [p]) = p + 1 := by
+        simp only [hiOf, getLast?_append_single]
+        rw [if_neg hskip]
+      by_cases hcap : p / 64 < st.ib.length
+      · -- the bit fits: set it
+        have hpc : p < 64 * nW := by rw [← inv.lenIb]; omega
+        rw [if_pos ⟨hcap, by simp [hbitp]⟩]
+        dsimp only
+        have hIB : allBits (setBit st.ib p) = (allBits st.ib).set p true := allBits_setBit _ _ hcap
+        obtain ⟨hI1, hI2, hI3, hI4, _, _⟩ := set_true_beyond (allBits st.ib) p (by omega)
+          (count_drop_zero_of_le _ hhi_le inv.ibHi)
+        have hall : ∀ v ∈ pre, v < 64 * nW := fun v hv => by have := hsorted v hv; omega
+        have hcnt := inv.cnt hall
+        refine
+          { lenIb := by rw [setBit_length]; exact inv.lenIb
+            lenAdv := by rw [setBit_length]; exact inv.lenAdv
+            prev := (getLast?_append_single pre p).symm
+            ibHi := ?_, advHi := ?_, ones := ?_, cnt := ?_, main := ?_ }
+        · rw [hhi', hIB]; exact hI4
+        · rw [List.length_append, hADV]; exact hA4
+        · show st.ibOnes + 1 = _
+          rw [hIB, hI1, inv.ones]
+        · intro _; rw [hIB, hADV, hI1, hA1, hcnt]
+        · intro j hj
+          by_cases hjl : j < pre.length
+          · rw [getElem_append_single_lt pre p j hjl hj, hADV, hA5 (j + 1) (by omega), hIB]
+            refine ⟨(inv.main j hjl).1, fun h1 h2 => ?_⟩
+            obtain ⟨a1, a2⟩ := (inv.main j hjl).2 h1 h2
+            refine ⟨a1, ?_⟩
+            rw [hI2 _ (selectB_lt_count _ _ _ a2)]; exact a2
+          · have hje : j = pre.length := by simp at hj; omega
+            subst hje
+            rw [getElem_append_single_eq, hADV, hA6 (pre.length + 1) (by omega), hIB]
+            refine ⟨fun h => absurd h hskip, fun _ _ => ⟨by omega, ?_⟩⟩
+            rw [Nat.add_sub_cancel, ← hcnt]; exact hI3
+      · -- no IB word for this position (position ≥ 64 · words): the bit is dropped
+        have hpc : ¬ p < 64 * nW := by rw [← inv.lenIb]; omega
+        rw [if_neg (by intro h; exact hcap h.1)]
+        dsimp only
+        refine
+          { lenIb := inv.lenIb
+            lenAdv := by rw [setBit_length]; exact inv.lenAdv
+            prev := (getLast?_append_single pre p).symm
+            ibHi := ?_, advHi := ?_, ones := inv.ones, cnt := ?_, main := ?_ }
+        · rw [hhi']; exact count_drop_zero_of_le _ (by omega) inv.ibHi
+        · rw [List.length_append, hADV]; exact hA4
+        · intro h; exact absurd (h p (by simp)) hpc
+        · intro j hj
+          by_cases hjl : j < pre.length
+          · rw [getElem_append_single_lt pre p j hjl hj, hADV, hA5 (j + 1) (by omega)]
+            exact inv.main j hjl
+          · have hje : j = pre.length := by simp at hj; omega
+            subst hje
+            rw [getElem_append_single_eq]
+            exact ⟨fun h => absurd h hskip, fun _ h => absurd h hpc⟩
+    · -- same position as the previous entry
+      rw [if_neg hnew]
+      have hprev : pre.getLast? = some p := by
+        rw [← inv.prev]; exact Decidable.not_not.mp hnew
+      have hne := (hlast p hprev).2
+      obtain ⟨n, hn⟩ : ∃ n, pre.length = n + 1 :=
+        ⟨pre.length - 1, by have := List.length_pos_iff.mpr hne; omega⟩
+      have hlt : n < pre.length := by omega
+      have hpn : pre[n] = p := by
+        have := List.getLast?_eq_getElem? (l := pre)
+        rw [hprev, hn, Nat.add_sub_cancel, List.getElem?_eq_getElem hlt] at this
+        exact (Option.some.inj this).symm
+      have hhi' : hiOf skip (pre ++ [p]) = hiOf skip pre := by
+        simp only [hiOf, getLast?_append_single, hprev]
+      refine
+        { lenIb := inv.lenIb, lenAdv := inv.lenAdv, prev := (getLast?_append_single pre p).symm
+          ibHi := ?_, advHi := ?_, ones := inv.ones, cnt := ?_, main := ?_ }
+      · rw [hhi']; exact inv.ibHi
+      · rw [List.length_append]; exact count_drop_zero_of_le _ (by simp) inv.advHi
+      · intro h; exact inv.cnt (fun v hv => h v (List.mem_append_left _ hv))
+      · intro j hj
+        by_cases hjl : j < pre.length
+        · rw [getElem_append_single_lt pre p j hjl hj]; exact inv.main j hjl
+        · have hje : j = pre.length := by simp at hj; omega
+          subst hje
+          rw [getElem_append_single_eq, hrank_len]
+          have := inv.main n hlt
+          rw [hpn, ← hn] at this
+          exact this
+
+theorem binv_loop (skip : Bool) (nW aW : Nat) (rest pre : List Nat) (st : BState)
+    (inv : BInv skip nW aW pre st) (hsorted : (pre ++ rest).Pairwise (· ≤ ·))
+    (hroom : (pre ++ rest).length ≤ 64 * aW) :
+    BInv skip nW aW (pre ++ rest) (coreLoop skip rest pre.length st) := by
+  induction rest generalizing pre st with
+  | nil => simpa [coreLoop] using inv
+  | cons p ps ih =>
+    have hsp : ∀ v ∈ pre, v ≤ p := by
+      intro v hv
+      rw [List.pairwise_append] at hsorted
+      exact hsorted.2.2 v hv p (by simp)
+    have hr : pre.length < 64 * aW := by simp at hroom; omega
+    have hstep := binv_step skip nW aW pre st p inv hsp hr
+    have e : pre ++ p :: ps = (pre ++ [p]) ++ ps := by simp
+    have hlen : (pre ++ [p]).length = pre.length + 1 := by simp
+    rw [e] at hsorted hroom ⊢
+    have := ih (pre ++ [p]) _ hstep hsorted hroom
+    rw [hlen] at this
+    unfold coreLoop
+    by_cases hs : skip = true ∧ p = 0
+    · rw [if_pos hs]; rw [if_pos hs] at this; exact this
+    · rw [if_neg hs]; rw [if_neg hs] at this; exact this
+
+theorem popcount_zero : popcount (0 : Word) = 0 := by decide
+
+theorem allBits_replicate_zero_count (n : Nat) : (allBits (List.replicate n (0 : Word))).count true = 0 := by
+  rw [count_allBits]
+  induction n with
+  | zero => rfl
+  | succ n ih => rw [List.replicate_succ, List.map_cons, List.sum_cons, ih, popcount_zero]
+
+theorem binv_init (skip : Bool) (nW aW : Nat) :
+    BInv skip nW aW [] { ib := List.replicate nW 0, adv := List.replicate aW 0, prev := none, ibOnes := 0 } where
+  lenIb := by simp
+  lenAdv := by simp
+  prev := rfl
+  ibHi := by
+    have := allBits_replicate_zero_count nW
+    simpa [hiOf] using this
+  advHi := by
+    have := allBits_replicate_zero_count aW
+    simpa using this
+  ones := (allBits_replicate_zero_count nW).symm
+  cnt := by intro _; rw [allBits_replicate_zero_count, allBits_replicate_zero_count]
+  main := by intro j hj; simp at hj
+
+theorem le_divCeil_mul (n : Nat) : n ≤ 64 * divCeil n 64 := by unfold divCeil; omega
+
+/-- The state after the whole (unified) loop over a sorted list. -/
+theorem binv_final (skip : Bool) (nW : Nat) (ps : List Nat) (hsorted : ps.Pairwise (· ≤ ·)) :
+    BInv skip nW (divCeil ps.length 64) ps
+      (coreLoop skip ps 0
+        { ib := List.replicate nW 0, adv := List.replicate (divCeil ps.length 64) 0, prev := none, ibOnes := 0 }) := by
+  have := binv_loop skip nW (divCeil ps.length 64) ps [] _ (binv_init skip nW _) (by simpa using hsorted)
+    (by simpa using le_divCeil_mul ps.length)
+  simpa using this
+
+/-- Reading of a table whose bitmaps satisfy the build invariant. -/
+theorem tableFn_of_binv (F : Flavor) (skip : Bool) (nW aW : Nat) (ps : List Nat) (st : BState)
+    (inv : BInv skip nW aW ps st) (T : Table) (hib : T.ibWords = st.ib) (hadv : T.advanceWords = st.adv)
+    (hn : T.numOpens = ps.length) (i : Nat) (hi : i < ps.length) :
+    ((skip = true ∧ ps[i] = 0) → tableFn F T i = none) ∧
+    (¬ (skip = true ∧ ps[i] = 0) → ps[i] < 64 * nW → tableFn F T i = some (F.conv ps[i])) := by
+  unfold tableFn
+  rw [if_pos (by omega), hib, hadv]
+  dsimp only
+  obtain ⟨m1, m2⟩ := inv.main i hi
+  refine ⟨fun h => ?_, fun h1 h2 => ?_⟩
+  · rw [m1 h]; rfl
+  · obtain ⟨a1, a2⟩ := m2 h1 h2
+    rw [if_neg (by omega), a2]; rfl
+
+/-! ### `build_select_samples` -/
+
+/-- Sample `j` is the position of the set bit of rank `j · rate`. -/
+def SampOk (rate : Nat) (IB : List Bool) (s : List Nat) : Prop :=
+  ∀ j, j < s.length → selectB true IB (j * rate) = some (s.getD j 0)
+
+section Samples
+variable {pc : Word → Nat} {siw : Word → Nat → Nat} {rate : Nat}
+
+theorem popcount_le_64 (w : Word) : popcount w ≤ 64 := by
+  unfold popcount
+  have := List.count_le_length (a := true) (l := wordBits w)
+  rw [wordBits_length] at this; exact this
+
+theorem sampOk_snoc (IB : List Bool) (s : List Nat) (x : Nat) (h : SampOk rate IB s)
+    (hx : selectB true IB (s.length * rate) = some x) : SampOk rate IB (s ++ [x]) := by
+  intro j hj
+  by_cases hjl : j < s.length
+  · rw [List.getD_eq_getElem?_getD, List.getElem?_append_left hjl, ← List.getD_eq_getElem?_getD]
+    exact h j hjl
+  · have : j = s.length := by simp at hj; omega
+    subst this
+    rw [List.getD_eq_getElem?_getD, List.getElem?_append_right (by omega)]
+    simpa using hx
+
+theorem sampWhile_spec (hsiw : ∀ w k, siw w k = selectInWordSpec w k) (hrate : 0 < rate)
+    (a c : List Word) (w : Word) (numSamples : Nat) (fuel : Nat) (s : List Nat) (t : Nat)
+    (hs : SampOk rate (allBits (a ++ w :: c)) s) (ht : t = s.length * rate)
+    (hseen : (allBits a).count true ≤ t)
+    (hfuel : (allBits a).count true + popcount w < t + fuel) :
+    let r := sampWhile siw rate numSamples a.length w ((allBits a).count true) (popcount w) fuel s t
+    SampOk rate (allBits (a ++ w :: c)) r.1 ∧ r.2.1 = r.1.length * rate ∧
+      (r.2.2 = false → (allBits a).count true + popcount w ≤ r.2.1) := by
+  induction fuel generalizing s t with
+  | zero =>
+    simp only [sampWhile]
+    exact ⟨hs, ht, fun _ => by omega⟩
+  | succ fuel ih =>
+    simp only [sampWhile]
+    by_cases hlt : t < (allBits a).count true + popcount w
+    · rw [if_pos hlt]
+      have hx : selectB true (allBits (a ++ w :: c)) (s.length * rate)
+          = some (a.length * 64 + siw w (t - (allBits a).count true)) := by
+        have := select_at_word_aux a c w (t - (allBits a).count true) (by omega)
+        rw [show (allBits a).count true + (t - (allBits a).count true) = t by omega] at this
+        rw [← ht, this, hsiw]; congr 1; omega
+      have hs' := sampOk_snoc _ s _ hs hx
+      have hlen : (s ++ [a.length * 64 + siw w (t - (allBits a).count true)]).length = s.length + 1 := by simp
+      by_cases hbrk : (s ++ [a.length * 64 + siw w (t - (allBits a).count true)]).length ≥ numSamples
+      · rw [if_pos hbrk]
+        refine ⟨hs', ?_, fun h => by simp at h⟩
+        show t + rate = _
+        rw [hlen, ht, Nat.add_mul]; omega
+      · rw [if_neg hbrk]
+        exact ih _ (t + rate) hs' (by rw [hlen, ht, Nat.add_mul]; omega) (by omega) (by omega)
+    · rw [if_neg hlt]
+      exact ⟨hs, ht, fun _ => Nat.le_of_not_lt hlt⟩
+
+theorem sampFor_spec (hpc : ∀ w, pc w = popcount w) (hsiw : ∀ w k, siw w k = selectInWordSpec w k)
+    (hrate : 0 < rate) (numSamples : Nat) (rest a : List Word) (s : List Nat) (t : Nat)
+    (hs : SampOk rate (allBits (a ++ rest)) s) (ht : t = s.length * rate)
+    (hseen : (allBits a).count true ≤ t) :
+    SampOk rate (allBits (a ++ rest))
+      (sampFor pc siw rate numSamples rest a.length s ((allBits a).count true) t) := by
+  induction rest generalizing a s t with
+  | nil => exact hs
+  | cons w rest ih =>
+    have e : a ++ w :: rest = (a ++ [w]) ++ rest := by simp
+    have hcount : (allBits (a ++ [w])).count true = (allBits a).count true + popcount w := by
+      rw [allBits_append, List.count_append, count_allBits, count_allBits]; simp
+    have hlen : (a ++ [w]).length = a.length + 1 := by simp
+    simp only [sampFor]
+    by_cases hw : w = 0
+    · rw [if_pos hw]
+      subst hw
+      have := ih (a ++ [0]) s t (by rw [← e]; exact hs) ht (by rw [hcount, popcount_zero]; omega)
+      rw [hcount, popcount_zero, Nat.add_zero, hlen, ← e] at this
+      exact this
+    · rw [if_neg hw, hpc]
+      have hwl := popcount_le_64 w
+      have hsp := sampWhile_spec (rate := rate) hsiw hrate a rest w numSamples 65 s t hs ht hseen (by omega)
+      generalize sampWhile siw rate numSamples a.length w ((allBits a).count true) (popcount w) 65 s t = r at hsp
+      obtain ⟨s', t', brk⟩ := r
+      obtain ⟨h1, h2, h3⟩ := hsp
+      dsimp only at h1 h2 h3 ⊢
+      cases brk with
+      | true => simpa using h1
+      | false =>
+        simp only [Bool.false_eq_true, if_false]
+        have := ih (a ++ [w]) s' t' (by rw [← e]; exact h1) h2 (by rw [hcount]; exact h3 rfl)
+        rw [hcount, hlen, ← e] at this
+        exact this
+
+theorem buildSelectSamples_ok (hpc : ∀ w, pc w = popcount w) (hsiw : ∀ w k, siw w k = selectInWordSpec w k)
+    (hrate : 0 < rate) (ws : List Word) (total : Nat) :
+    SampOk rate (allBits ws) (buildSelectSamples pc siw rate ws total) := by
+  unfold buildSelectSamples
+  by_cases h0 : total = 0
+  · rw [if_pos h0]; intro j hj; simp at hj
+  · rw [if_neg h0]
+    have := sampFor_spec (pc := pc) (siw := siw) (rate := rate) hpc hsiw hrate ((total + rate - 1) / rate)
+      ws [] [] 0 (by intro j hj; simp at hj) (by simp) (by simp [allBits])
+    simpa [allBits] using this
+
+end Samples
+/-! ### `AdvancePositions::build_unchecked` -/
+
+section Open
+variable {pc : Word → Nat} {siw : Word → Nat → Nat} {rate : Nat}
+
+theorem wf_of_binv (hpc : ∀ w, pc w = popcount w) (hsiw : ∀ w k, siw w k = selectInWordSpec w k)
+    (hrate : 0 < rate) (skip : Bool) (nW aW : Nat) (ps : List Nat) (st : BState)
+    (inv : BInv skip nW aW ps st) (hsmall : ps.length < usizeMax) (len : Nat) (irank : List Nat) :
+    WF pc rate
+      { ibWords := st.ib, ibLen := len, ibRank := irank,
+        ibSelectSamples := buildSelectSamples pc siw rate st.ib st.ibOnes, ibOnes := st.ibOnes,
+        advanceWords := st.adv, numOpens := ps.length, advanceRank := buildCumulativeRank pc st.adv } where
+  arank := rfl
+  ones := inv.ones
+  samples := buildSelectSamples_ok hpc hsiw hrate st.ib st.ibOnes
+  small := hsmall
+
+theorem wf_buildOpen (hpc : ∀ w, pc w = popcount w) (hsiw : ∀ w k, siw w k = selectInWordSpec w k)
+    (hrate : 0 < rate) (ps : List Nat) (len : Nat) (hsorted : ps.Pairwise (· ≤ ·))
+    (hsmall : ps.length < usizeMax) : WF pc rate (buildOpen pc siw rate ps len) := by
+  unfold buildOpen
+  by_cases he : ps.isEmpty = true
+  · rw [if_pos he]
+    exact { arank := rfl, ones := by simp [allBits], samples := by intro s hs; simp at hs,
+            small := by show 0 < usizeMax; decide }
+  · rw [if_neg he]
+    dsimp only
+    rw [openLoop_eq]
+    exact wf_of_binv hpc hsiw hrate false _ _ ps _ (binv_final false _ ps hsorted) hsmall len _
+
+/-- The open-position table denotes the recorded sequence wherever the IB bitmap has a word for the
+position (`p < 64 · ⌈text_len / 64⌉`). -/
+theorem tableFn_buildOpen (F : Flavor) (ps : List Nat) (len : Nat) (hsorted : ps.Pairwise (· ≤ ·)) (i : Nat) :
+    (∀ (hi : i < ps.length), ps[i] < 64 * divCeil len 64 →
+      tableFn F (buildOpen pc siw rate ps len) i = some (F.conv ps[i])) ∧
+    (ps.length ≤ i → tableFn F (buildOpen pc siw rate ps len) i = none) := by
+  unfold buildOpen
+  by_cases he : ps.isEmpty = true
+  · rw [if_pos he]
+    have : ps = [] := List.isEmpty_iff.mp he
+    subst this
+    exact ⟨fun hi => by simp at hi, fun _ => by simp [tableFn]⟩
+  · rw [if_neg he]
+    dsimp only
+    rw [openLoop_eq]
+    have inv := binv_final false (divCeil len 64) ps hsorted
+    refine ⟨fun hi hcap => ?_, fun hi => ?_⟩
+    · exact (tableFn_of_binv F false _ _ ps _ inv _ rfl rfl rfl i hi).2 (by simp) hcap
+    · unfold tableFn
+      rw [if_neg (by show ¬ i < ps.length; omega)]
+
+end Open
+/-! ### `OpenPositions` -/
+
+theorem pairwise_of_isMonotonic (ps : List Nat) (h : isMonotonic ps = true) : ps.Pairwise (· ≤ ·) := by
+  induction ps with
+  | nil => exact List.Pairwise.nil
+  | cons a l ih =>
+    cases l with
+    | nil => simp
+    | cons b rest =>
+      simp only [isMonotonic, Bool.and_eq_true, decide_eq_true_eq] at h
+      have hp := ih h.2
+      have hp' := List.pairwise_cons.mp hp
+      rw [List.pairwise_cons]
+      refine ⟨?_, hp⟩
+      intro x hx
+      rcases List.mem_cons.mp hx with rfl | hx
+      · exact h.1
+      · exact Nat.le_trans h.1 (hp'.1 x hx)
+
+section OpenP
+variable {pc : Word → Nat} {siw : Word → Nat → Nat} {rate : Nat}
+
+theorem open_compact_run (hpc : ∀ w, pc w = popcount w) (hsiw : ∀ w k, siw w k = selectInWordSpec w k)
+    (F : Flavor) (hF : FlavorOk pc F) {T : Table} (wf : WF pc rate T) (hist : List Nat) (i : Nat) :
+    (get pc siw rate F T (runFrom pc siw rate F T Cursor.init hist).2 i).1 = .val (tableFn F T i) :=
+  (get_spec hpc hsiw hF wf (runFrom_spec hpc hsiw hF wf _ (seqInv_init F T) hist).2 i).1
+
+theorem open_runFrom_compact (t : Table) (c : Cursor) (hist : List Nat) :
+    OpenPositions.runFrom pc siw rate (.compact t) c hist = YamlPos.runFrom pc siw rate (openFlavor pc) t c hist := by
+  induction hist generalizing c with
+  | nil => rfl
+  | cons i is ih => simp only [OpenPositions.runFrom, YamlPos.runFrom, OpenPositions.get, ih]
+
+theorem end_runFrom_compact (t : Table) (c : Cursor) (hist : List Nat) :
+    EndPositions.runFrom pc siw rate (.compact t) c hist = YamlPos.runFrom pc siw rate (endFlavor pc) t c hist := by
+  induction hist generalizing c with
+  | nil => rfl
+  | cons i is ih => simp only [EndPositions.runFrom, YamlPos.runFrom, EndPositions.get, ih]
+
+/-- `OpenPositions` (either variant) after any history: the recorded position, provided the IB
+bitmap has a word for it. -/
+theorem open_get_after (hpc : ∀ w, pc w = popcount w) (hsiw : ∀ w k, siw w k = selectInWordSpec w k)
+    (hrate : 0 < rate) (ps : List Nat) (len : Nat)
+    (hcap : ∀ p ∈ ps, p < 64 * divCeil len 64) (hu32 : ∀ p ∈ ps, p < 2 ^ 32) (hsmall : ps.length < usizeMax)
+    (hist : List Nat) (i : Nat) :
+    ((OpenPositions.build pc siw rate ps len).get pc siw rate
+      ((OpenPositions.build pc siw rate ps len).runFrom pc siw rate Cursor.init hist).2 i).1 = .val ps[i]? := by
+  unfold OpenPositions.build
+  by_cases hm : isMonotonic ps = true
+  · rw [if_pos hm]
+    have hsorted := pairwise_of_isMonotonic ps hm
+    have wf := wf_buildOpen (pc := pc) (siw := siw) hpc hsiw hrate ps len hsorted hsmall
+    rw [open_runFrom_compact]
+    show (get pc siw rate (openFlavor pc) _ _ i).1 = _
+    rw [open_compact_run hpc hsiw _ (openFlavor_ok pc) wf]
+    obtain ⟨h1, h2⟩ := tableFn_buildOpen (pc := pc) (siw := siw) (rate := rate) (openFlavor pc) ps len hsorted i
+    by_cases hi : i < ps.length
+    · rw [h1 hi (hcap _ (List.getElem_mem hi)), List.getElem?_eq_getElem hi]
+      show Ans.val (some (ps[i] % 2 ^ 32)) = _
+      rw [Nat.mod_eq_of_lt (hu32 _ (List.getElem_mem hi))]
+    · rw [h2 (by omega), List.getElem?_eq_none (by omega)]
+  · rw [if_neg hm]
+    rfl
+
+end OpenP
 end SV.YamlPos
